@@ -35,6 +35,15 @@ func (w *Wrapped) Error() string {
 
 func (w *Wrapped) Unwrap() error { return w.Err }
 
+// PathStrings renders the elements of this Wrap call ("field:Name", "index:3", "key:\"k\"").
+func (w *Wrapped) PathStrings() []string {
+	out := make([]string, len(w.Path))
+	for i, e := range w.Path {
+		out[i] = e.String()
+	}
+	return out
+}
+
 // Wrap is called by emitted code with the failing error and the path elements.
 func Wrap(err error, path ...Element) error {
 	return &Wrapped{Err: err, Path: append([]Element{}, path...)}
